@@ -434,7 +434,9 @@ def _execute(sc, root, want_texts):
             bump("reads_with_references_from_another_process")
             n_fresh = len(fresh_tasks)
             fresh_tasks = []
-        tasks = fresh_tasks + load_tasks
+        # an in-process reader goes round several times: load, use, drop - load, use, drop ...
+        rounds = 3 if st["how"] == "inproc" else 1
+        tasks = fresh_tasks + load_tasks * rounds
         if st["how"] == "child":
             plan = {"tree": tree, "cwd": cwd, "seed": sc.get("obs_seed", 0), "tasks": tasks, "texts": bool(want_texts),
                     "out": os.path.join(root, f"read{si}.json")}
@@ -460,7 +462,13 @@ def _execute(sc, root, want_texts):
             os.chdir(cwd)
             results = []
             bump("reads_inproc")
+            import gc
+
             for t in tasks:
+                # a long-lived host: every module it is done with is really gone before the next
+                # one is loaded (object addresses get reused)
+                m = None
+                gc.collect()
                 try:
                     with core.Quiet():
                         if t["op"] == "load":
@@ -482,9 +490,10 @@ def _execute(sc, root, want_texts):
                 return done(*r[:3], **r[3])
         if worker_refs:
             results = wres + results
-        kf = 0
         kl = n_fresh if worker_refs else len(fresh_tasks)
-        for n, style, rel in plan_names:
+        for n, style, rel in [x for _rnd in range(rounds) for x in plan_names]:
+            if (kl - (n_fresh if worker_refs else len(fresh_tasks))) % max(1, len(plan_names)) == 0:
+                kf = 0  # a new round over the same names: the references start over
             loaded = results[kl]
             kl += 1
             ent = model[n]
